@@ -33,6 +33,15 @@ deriving Repr, DecidableEq, Inhabited
 
 abbrev Heap := List Obj
 
+/-- `T(**kwargs)`: the attrs-generated class accepts exactly the feature names of `all_features`
+    (plus `xmiID` and `type`, passed separately here); every other keyword is a `TypeError`.
+    Slots are created for every field, defaulting to `None`. -/
+def construct (t : TS.TypeRec) (tsIdx : Nat) (xid : Option Int) (kwargs : List (String × Val)) : Except Err Obj :=
+  let fields := (TS.ctorFields t).eraseDups
+  if kwargs.any (fun p => !(fields.contains p.1)) then .error .typeError
+  else .ok { ty := t.name, ts := tsIdx, xid := xid,
+             slots := fields.map (fun n => (n, (alistGet? kwargs n).getD .none)) }
+
 namespace Heap
 
 /-- names every instance answers to besides its feature slots: `type`, `xmiID` and the methods
